@@ -431,3 +431,27 @@ def shrink_expr(e):
             yield head + [[v[:4] + [[]] for v in c], [v[:4] + [[]] for v in p]]
         if any(v[2] != "n" for v in c + p):
             yield head + [[v[:2] + ["n", "0"] + v[4:] for v in c], [v[:2] + ["n", "0"] + v[4:] for v in p]]
+
+
+# --------------------------------------------------------------------------------------------- finding keys
+
+def alpha_normalise(obj):
+    """rename the variable names (ints < 1000) in order of first occurrence to 0,1,2,...; drop nothing else.
+    Used for finding keys, so that one defect met with different names is one finding."""
+    table: dict = {}
+
+    def ren(n):
+        n = int(n)
+        if n >= 1000:
+            return n
+        return table.setdefault(n, len(table))
+
+    def go(x):
+        if isinstance(x, list) and len(x) == 5 and x[0] == "v":
+            return ["v", ren(x[1]), x[2], str(x[3]), [[ren(a), b] for a, b in x[4]]]
+        if isinstance(x, list):
+            return [go(y) for y in x]
+        if isinstance(x, dict):
+            return {k: go(v) for k, v in sorted(x.items())}
+        return x
+    return go(obj)
